@@ -5,7 +5,7 @@ Import ListNotations.
 Open Scope string_scope.
 
 
-(* saml2/mdstore.py:InMemoryMetaData.do_entity_descriptor, lines 565-613 *)
+(* saml2/mdstore.py:InMemoryMetaData.do_entity_descriptor, lines 565-614 *)
 Definition src2_do_entity_descriptor (valid : pyval -> pyval) (to_dict : pyval -> pyval) (filter_ : pyval -> pyval) (v_self : pyval) (v_entity_descr : pyval) : pyval :=
   let v__ent := PErr in
   let v_flag := PErr in
@@ -30,7 +30,7 @@ Definition src2_do_entity_descriptor (valid : pyval -> pyval) (to_dict : pyval -
      | BFalse => (py_bindS (fun n_46 => (ExcS n_46 [v__res; v__items; v_flag; v_item; v__ent])) (p2_iter_check v__items) (fun it_30 =>
      (match pyfor2 (py_iter2 it_30) [v_item; v__res] (fun st_31 x_32 => match st_31 with [v_item; v__res] =>
       (let v_item := x_32 in
-      (py_bindS (fun n_45 => (ExcS n_45 [v_item; v__res])) (p2_iter_check (p2_split (p2_getitem v_item (PStr "protocol_support_enumeration")) (PStr " "))) (fun it_35 =>
+      (py_bindS (fun n_45 => (ExcS n_45 [v_item; v__res])) (p2_iter_check (p2_split_ws (p2_getitem v_item (PStr "protocol_support_enumeration")))) (fun it_35 =>
       (match pyfor2 (py_iter2 it_35) [v_item; v__res] (fun st_36 x_37 => match st_36 with [v_item; v__res] =>
        (let v_prot := x_37 in
        (match p2_branch (p2_eq v_prot (PStr "urn:oasis:names:tc:SAML:2.0:protocol")) with
@@ -177,11 +177,11 @@ Definition src2_extract_certs (repack_cert : pyval -> pyval) (v_use : pyval) (v_
    | ExcS n_6 st_3 => match st_3 with [v_key_use; v_key_info; v_key_name; v_key_name_txt; v_text; v_cert; v_res] => (PExc n_6) | _ => PErr end
    end)))).
 
-(* saml2/mdstore.py:MetaDataMDX._is_metadata_fresh, lines 1009-1010 *)
+(* saml2/mdstore.py:MetaDataMDX._is_metadata_fresh, lines 1010-1011 *)
 Definition src2_is_fresh (before : pyval -> pyval) (v_self : pyval) (v_item : pyval) : pyval :=
   (py_bind (p2_getitem (p2_attr v_self "expiration_date") v_item) (fun a_1 => (before a_1))).
 
-(* saml2/mdstore.py:MetaDataMDX.__getitem__, lines 1012-1022 *)
+(* saml2/mdstore.py:MetaDataMDX.__getitem__, lines 1013-1023 *)
 Definition src2_mdx_getitem (fetch : pyval -> pyval -> pyval) (fresh : pyval -> pyval -> pyval) (v_self : pyval) (v_item : pyval) : pyval :=
   let v_entity := PErr in
   let v_msg := PErr in
@@ -209,7 +209,7 @@ Definition src2_mdx_getitem (fetch : pyval -> pyval -> pyval) (fresh : pyval -> 
    | BErr => PErr
    end)).
 
-(* saml2/mdstore.py:MetadataStore.__getitem__, lines 1397-1404 *)
+(* saml2/mdstore.py:MetadataStore.__getitem__, lines 1398-1405 *)
 Definition src2_store_getitem (v_self : pyval) (v_item : pyval) : pyval :=
   (py_bind (p2_iter_check (p2_values (p2_attr v_self "metadata"))) (fun it_2 =>
    (match pyfor2 (py_iter2 it_2) [] (fun st_3 x_4 => match st_3 with [] =>
@@ -226,7 +226,7 @@ Definition src2_store_getitem (v_self : pyval) (v_item : pyval) : pyval :=
    | ExcS n_6 st_3 => match st_3 with [] => (PExc n_6) | _ => PErr end
    end))).
 
-(* saml2/mdstore.py:MetadataStore.reload, lines 1133-1143 *)
+(* saml2/mdstore.py:MetadataStore.reload, lines 1134-1144 *)
 Definition src2_reload (imp : pyval -> pyval -> pyval) (v_self : pyval) (v_spec : pyval) : pyval :=
   let v_old_metadata := PErr in
   let v_e := PErr in
@@ -238,7 +238,7 @@ Definition src2_reload (imp : pyval -> pyval -> pyval) (v_self : pyval) (v_spec 
    (PList [(PExc n_6); v_self]))))))) (py_bind v_spec (fun a_5 => (imp v_self a_5))) (fun _ =>
    (PList [PNone; v_self]))))))).
 
-(* saml2/mdstore.py:InMemoryMetaData.signed, lines 731-738 *)
+(* saml2/mdstore.py:InMemoryMetaData.signed, lines 732-739 *)
 Definition src2_signed (v_self : pyval) : pyval :=
   (match p2_branch (p2_and (p2_attr v_self "entities_descr") (p2_attr (p2_attr v_self "entities_descr") "signature")) with
    | BTrue => (PBool true)
